@@ -574,6 +574,72 @@ mut('C17', 'failed_basic_auth_falls_through', MB, """			if !credUserOk || subtle
 				basicAuthFailed(w, realm)
 			}""")
 
+# ---- C20 API control actions
+HD = 'internal/frontend/dag/handler.go'
+mut('C20', 'start_allowed_while_running', HD, """		if dagStatus.Status.Status == scheduler.StatusRunning {
+			return nil, newBadRequestError(errInvalidArgs)
+		}
+		h.client.StartAsync(""", """		h.client.StartAsync(""")
+mut('C20', 'stop_allowed_when_not_running', HD, """		if dagStatus.Status.Status != scheduler.StatusRunning {
+			return nil, newBadRequestError(
+				fmt.Errorf("the DAG is not running: %w", errInvalidArgs),
+			)
+		}
+""", "")
+mut('C20', 'status_edit_allowed_while_running', HD, """	// Do not allow updating the status if the DAG is still running.
+	if dagStatus.Status.Status == scheduler.StatusRunning {
+		return nil, newBadRequestError(
+			fmt.Errorf("the DAG is still running: %w", errInvalidArgs),
+		)
+	}
+""", "")
+mut('C20', 'status_edit_hits_the_first_matching_step', HD, """		if n.Step.Name == params.Body.Step {
+			idxToUpdate = idx
+			ok = true
+		}""", """		if n.Step.Name == params.Body.Step && !ok {
+			idxToUpdate = idx
+			ok = true
+		}""")
+mut('C20', 'status_edit_hits_the_next_node', HD, """	status.Nodes[idxToUpdate].Status = to
+	status.Nodes[idxToUpdate].StatusText = to.String()""", """	if idxToUpdate+1 < len(status.Nodes) {
+		idxToUpdate++
+	}
+	status.Nodes[idxToUpdate].Status = to
+	status.Nodes[idxToUpdate].StatusText = to.String()""")
+mut('C20', 'start_parameters_not_forwarded', HD, """		h.client.StartAsync(dagStatus.DAG, client.StartOptions{
+			Params: params.Body.Params,
+		})""", """		h.client.StartAsync(dagStatus.DAG, client.StartOptions{})""")
+mut('C20', 'retry_without_request_id', HD, """		if params.Body.RequestID == "" {
+			return nil, newBadRequestError(
+				fmt.Errorf("request-id is required: %w", errInvalidArgs),
+			)
+		}
+		if err := h.client.Retry(""", """		if err := h.client.Retry(""")
+mut('C20', 'status_edit_of_the_live_run_accepted', CL, """		if unmarshalled != nil && unmarshalled.RequestID == status.RequestID &&
+			unmarshalled.Status == scheduler.StatusRunning {
+			return errDAGIsRunning
+		}""", """		if unmarshalled != nil && unmarshalled.RequestID != status.RequestID &&
+			unmarshalled.Status == scheduler.StatusRunning {
+			return errDAGIsRunning
+		}""")
+mut('C20', 'start_drops_the_quotes', CL, """		args = append(args, fmt.Sprintf(`"%s"`, escapeArg(opts.Params)))""", """		args = append(args, escapeArg(opts.Params))""")
+mut('C20', 'escape_arg_also_escapes_spaces', CL, """		} else if char == '\\n' {
+			_, _ = escaped.WriteString("\\\\n")
+		} else {""", """		} else if char == '\\n' {
+			_, _ = escaped.WriteString("\\\\n")
+		} else if char == ' ' {
+			_, _ = escaped.WriteString("\\\\ ")
+		} else {""")
+mut('C20', 'status_edit_written_to_the_latest_run', CL, """	return e.dataStore.HistoryStore().Update(
+		workflow.Location, status.RequestID, status,
+	)""", """	latest, err := e.dataStore.HistoryStore().ReadStatusToday(workflow.Location)
+	if err != nil {
+		return err
+	}
+	return e.dataStore.HistoryStore().Update(
+		workflow.Location, latest.RequestID, status,
+	)""")
+
 # ---- C09 daemon
 D = 'internal/scheduler/scheduler.go'
 J = 'internal/scheduler/job.go'
